@@ -36,18 +36,23 @@ PredDelta(e) ==
   ELSE {}
 
 LoggedDelta(e) == {<<e.delta[i][1], e.delta[i][2], e.delta[i][3], e.delta[i][4]>> : i \in 1..Len(e.delta)}
-LoggedSt(e) == [c \in Chips |-> [on |-> B(e.st[c + 1].on), start |-> e.st[c + 1].start, page |-> e.st[c + 1].page, y |-> e.st[c + 1].y,
-                                 busy |-> IF e.st[c + 1].busy = -1 THEN PredSt(e)[c].busy ELSE B(e.st[c + 1].busy)]]
+\* the logged registers exactly as logged (compared with the prediction) ...
+RawSt(e) == [c \in Chips |-> [on |-> B(e.st[c + 1].on), start |-> e.st[c + 1].start, page |-> e.st[c + 1].page, y |-> e.st[c + 1].y,
+                              busy |-> IF e.st[c + 1].busy = -1 THEN PredSt(e)[c].busy ELSE B(e.st[c + 1].busy)]]
+\* ... and clamped into the type domain for resynchronisation (the trace specification must stay total on any log)
+LoggedSt(e) == [c \in Chips |-> [RawSt(e)[c] EXCEPT !.start = RawSt(e)[c].start % 64, !.page = RawSt(e)[c].page % Pages, !.y = RawSt(e)[c].y % Width]]
+InRange(d) == d[1] \in Chips /\ d[2] \in 0..Pages-1 /\ d[3] \in 0..Width-1
 
 Clause(e) ==
   IF e.ret # PredRet(e) THEN "ReturnValue"
-  ELSE IF \E c \in Chips : LoggedSt(e)[c] # PredSt(e)[c] THEN "ChipRegisters"
+  ELSE IF \E c \in Chips : RawSt(e)[c] # PredSt(e)[c] THEN "ChipRegisters"
   ELSE IF LoggedDelta(e) # PredDelta(e) THEN "VramContents"
   ELSE "ok"
 
 RECURSIVE ApplySeq(_, _, _)
 ApplySeq(vr, ds, i) == IF i > Len(ds) THEN vr
-                       ELSE ApplySeq([vr EXCEPT ![ds[i][1]][ds[i][2]][ds[i][3]] = ds[i][4]], ds, i + 1)
+                       ELSE IF ~InRange(ds[i]) THEN ApplySeq(vr, ds, i + 1)
+                       ELSE ApplySeq([vr EXCEPT ![ds[i][1]][ds[i][2]][ds[i][3]] = ds[i][4] % 256], ds, i + 1)
 
 TNext ==
   /\ l <= Len(TraceLog) /\ l' = l + 1
